@@ -59,20 +59,23 @@ Proof. exact FwSound.fw_sound_unguarded_refuted. Qed.
     PROJECTION queries: backward projection (as pedantic repair), the pending mark, dirt sent up
     through projections when backward projections may not follow, a projection that reaches
     other firewalls with the same value.  Every well-formed acyclic program (projections read
-    firewalls and projections only), every history of sessions, queries and restarts.  Out of
-    scope (validated, not proved): external inputs / refresh and unordered groups. *)
+    firewalls and projections only; UNORDERED GROUPS allowed: [wf_model_g]), every history of
+    sessions, queries and restarts.  Out of scope (validated, not proved): external inputs /
+    refresh. *)
 Theorem C01_model_sound :
-  forall p ops i n r z, wf_model p -> Forall op_in_scope ops ->
+  forall p ops i n r z, wf_model_g p -> Forall op_in_scope ops ->
     model_sessions_fuelled p ops i ->
     nth_error ops i = Some (OQuery n) ->
     nth_error (run_history p init_state ops) i = Some r ->
     r_out r = RValue z ->
     MdlSpec p (inputs_after (firstn i ops)) n z.
-Proof. exact MdlSound.model_sound. Qed.
+Proof. exact MdlSound.model_sound_g. Qed.
 
 Theorem C01_model_unguarded_refuted : ~ model_sound_statement_unguarded.
 Proof. exact MdlSound.model_sound_unguarded_refuted. Qed.
 
+Check mexg_prog_wf. (* ... and a projection over an unordered group of firewalls *)
+Check mexg_run.
 Check mex_prog_wf.  (* wf_model is satisfiable: a projection switching between firewalls, a projection over a projection *)
 Check mex_run.
 Check fex_prog_wf.  (* wf_fw is satisfiable by a program whose dependency switches between two firewalls *)
